@@ -67,8 +67,16 @@ Theorem C18_mopidy_no_deadlock :
 Proof. exact mopidy_no_deadlock_lemma. Qed.
 Print Assumptions C18_mopidy_no_deadlock.
 
-(* the end-of-track callback is served by the core's own thread while the caller blocks *)
+(* the end-of-track callback is served by the core's own thread while the caller blocks:
+   the translated GstThread -> Core call site waits without any timeout (finite check on the
+   generated sites), and in the model such a call keeps the caller blocked until the core's
+   own thread has run the handler to completion *)
+Theorem C18_callback_edge_unbounded : callback_unbounded_b Edges_gen.sites = true.
+Proof. exact mopidy_callback_unbounded_lemma. Qed.
+Print Assumptions C18_callback_edge_unbounded.
+
 Theorem C18_callback_served_by_core :
+  callback_unbounded_b Edges_gen.sites = true /\
   forall (comp_of : actor -> comp) (code_of : actor -> hid -> list instr),
     (forall a h t h', In (ICall t h') (code_of a h) ->
                       edge_in_b Edges_gen.edges (comp_of a) (comp_of t) = true) ->
